@@ -24,8 +24,8 @@ PROP = {
                   "counted before POST stats_config {interval: 0} (documented only as 'statistics is disabled'): "
                   "it may be reported or not, per hour. Updates issued between a "
                   "clock step and the next run of the flush worker (<= 1 s in production) are not generated. "
-                  "The concurrent part judges only schedules that occur and is not built with -race (the race "
-                  "detector run of this package belongs to C05). Trusts bbolt, encoding/json, net/http/httptest.",
+                  "The concurrent part judges only schedules that occur and is not built with -race in the "
+                  "registered tiers (4-5x slower; one manual -race run of the whole quick tier was clean). Trusts bbolt, encoding/json, net/http/httptest.",
     "tests": [
         ("TestVFC09History", (500, 3000), {"steps": 40}),
         ("TestVFC09Concurrent", (150, 1000)),
